@@ -19,6 +19,8 @@ CONSTANTS
   UseEpochs = TRUE
   OccSet = {FALSE}
   MinCleanSegs = 1
+  UseRevReaders = FALSE
+  UseFaults = FALSE
   UseReaders = FALSE
 INVARIANTS CTypeOK C01_Ordered SegsConsistent NoEmptyInnerSegment
 PROPERTIES StepsOK
